@@ -69,6 +69,7 @@ def headOk : Ty → PV → Bool
   | .float, j => match j with | .flt _ => true | .fltOfInt _ => true | .int n => !floatOverflow n | .bool _ => true | _ => false
   | .str, j => match j with | .str _ => true | _ => false
   | .bool, j => match j with | .bool _ => true | _ => false
+  | .never, _ => false
   | .listAny, j => match j with | .list _ => true | _ => false
   | .tupleAny, j => match j with | .list _ => true | .tuple _ => true | _ => false
   | .dictAny, j => match j with | .dict _ => true | _ => false
